@@ -359,7 +359,7 @@ Print Assumptions c15_csi_ref_bounded.
 
 (* fai / crai line loop: the model's fuel is never the reason of a result *)
 Theorem c15_text_index_fuel : forall f bs, (length bs < f)%nat ->
-  NV.Index.TextIndex.read_lines f NV.Index.TextIndex.parse_fai_rec bs = NV.Index.TextIndex.read_fai bs /\
+  NV.Index.TextIndex.read_lines_bytes f NV.Index.TextIndex.parse_fai_rec bs = NV.Index.TextIndex.read_fai bs /\
   NV.Index.TextIndex.read_lines f NV.Index.TextIndex.parse_crai_rec bs = NV.Index.TextIndex.read_crai bs.
 Proof.
   intros f bs H. split;
